@@ -229,7 +229,7 @@ def mkBinary (env : Env) (c : Consts) (choices : List Val) (active : Option (Lis
       else
         let an := binActive choices act
         if an.2 = (dedupPy act).length then
-          let av : Option Int := if an.2 = 2 then none else an.1.map (fun p => (p : Int))
+          let av : Option Int := if an.2 = 2 then none else an.1.map Int.ofNat
           match mkInt env c 0 1 .lin av av with
           | .ok ri => .ok ⟨choices, ri⟩
           | .error e => .error e
@@ -282,8 +282,8 @@ def mkOrdEq (env : Env) (c : Consts) (choices : List Val) (active : Option (List
   match firstPos choices active with
   | .error e => .error e
   | .ok fp =>
-    let aL : Option Int := fp.map (fun p => (p : Int))
-    let aU : Option Int := fp.map (fun p => (p : Int) + ((active.getD []).length : Int) - 1)
+    let aL : Option Int := fp.map Int.ofNat
+    let aU : Option Int := fp.map (fun p => Int.ofNat p + Int.ofNat (active.getD []).length - 1)
     match mkInt env c 0 ((choices.length : Int) - 1) .lin aL aU with
     | .ok ri => .ok ⟨choices, ri⟩
     | .error e => .error e
